@@ -82,13 +82,19 @@ def strategy(tier: str) -> Any:
         'tls': st.booleans(),
         'local': st.sampled_from([False, False, True]),
         'attempts': attempts,
+        'pwchange': st.sampled_from([None, None, None, 'alice', 'bob',
+                                     'root']),
     })
+
+
+#: the stored secrets as they are now (a case may change one after setup)
+_PW: dict[str, str] = {}
 
 
 def _allowed(cid: str, pw: str, zid: str, backend: str,
              service: str) -> str | None:
     """The identity the model allows this attempt to act as, or None."""
-    if cid not in USERS or USERS[cid][0] != pw:
+    if cid not in USERS or _PW.get(cid, USERS[cid][0]) != pw:
         return None
     if service == 'sieve':
         # the listener may ignore authzid, but may never act as someone the
@@ -171,6 +177,15 @@ def run_case(case: dict[str, Any]) -> CaseOut:
                     .startswith(b'OK')
                 v.cmd(b'PUTSCRIPT "script-%s" "keep;"\r\n' % u.encode())
                 v.cmd(b'LOGOUT\r\n')
+        # the stored secret of one user is replaced after everybody has
+        # logged in once with the old one: from now on only the new verifies
+        _PW.clear()
+        who = case.get('pwchange')
+        if who:
+            from harness.servers import set_password
+            _PW[who] = 'new-' + who
+            set_password(sim, who, _PW[who], roles=USERS[who][1])
+            out.label('password-changed-after-first-login')
         peer = ('127.0.0.1', 5) if case['local'] else ('1.2.3.4', 5)
         conn = sim.connect(service, peer=peer)
         greeting = conn.take()
@@ -203,7 +218,8 @@ def _creds(a: dict[str, Any], last_ok: str | None = None
     if a.get('reuse') and last_ok is not None:
         cid = last_ok      # the identity that succeeded earlier on this
         #                    connection, now with whatever password is drawn
-    pw = USERS[cid][0] if a['right_pw'] and cid in USERS else a['pw']
+    pw = _PW.get(cid, USERS[cid][0]) if a['right_pw'] and cid in USERS \
+        else a['pw']
     zid = cid if a['zid'] == 'same' else a['zid']
     return cid, pw, zid
 
